@@ -252,6 +252,12 @@ class SplitTrace(object):
         return out
 
 
+def part_name(i):
+    """file name of the i-th entry of data_path_list; list order differs
+    from the alphabetical order of the names (03, 00, 07, 04, ...)"""
+    return 'part_%02d.h5ad' % ((7 * i + 3) % 10)
+
+
 def write_inputs(d, ref, cfg, with_obs_levels=False):
     """one h5ad per file of the split; returns the paths"""
     if cfg.norm == 'raw':
@@ -263,7 +269,7 @@ def write_inputs(d, ref, cfg, with_obs_levels=False):
     paths = []
     anc = ref.ancestors()
     for i, (idx, enc) in enumerate(zip(cfg.files, cfg.encodings)):
-        p = pathlib.Path(d) / ('part_%02d.h5ad' % i)
+        p = pathlib.Path(d) / part_name(i)
         obs_cols = None
         if with_obs_levels:
             obs_cols = {lvl: [anc[ref.label[ref.names[j]]][lvl] for j in idx]
@@ -696,7 +702,7 @@ def check_run(ctx, ref, cfg, frontend='list', baseline=None):
         ml = model_loads(ctx, ref, cfg, tree_cells)
         impl_loads = res['loads']
         if impl_loads is not None and None not in impl_loads:
-            name_to_idx = {('part_%02d.h5ad' % i): i
+            name_to_idx = {part_name(i): i
                            for i in range(len(cfg.files))}
             il = [[[name_to_idx[c[0]], c[1], c[2]] for c in load]
                   for load in impl_loads]
